@@ -496,7 +496,11 @@ fn gen_lines(rng: &mut Rng, n: u64, lines: &mut Vec<String>) {
 				for _ in 0..k {
 					let i = rng.below(5) as usize;
 					let v = if rng.chance(3, 5) { vals[i][0] } else { *rng.pick(vals[i]) };
-					parts.push(format!("{}\"{}\"{}:{}{}", ws(rng), names[i], ws(rng), ws(rng), v));
+					// the fifth slot is an unknown member: any name that is not one of the four known ones,
+					// also names that mean something in OTHER message kinds, and escaped spellings of the known names
+					let name = if i == 4 { *rng.pick(&["x", "method", "params", "subscription", "code", "message", "data", "Result", "ID", " id", "", "jsonrpc "]) } else { names[i] };
+					let key = if rng.chance(1, 10) { spell_string(rng, name) } else { format!("\"{name}\"") };
+					parts.push(format!("{}{}{}:{}{}", ws(rng), key, ws(rng), ws(rng), v));
 				}
 				let t = format!("{}{{{}{}}}{}", ws(rng), parts.join(","), ws(rng), ws(rng));
 				let t = if rng.chance(1, 10) { mutate(rng, &t) } else { t };
